@@ -7,10 +7,6 @@ From Coq Require Import ZArith List Bool Lia Sorted.
 From Mesa Require Import Generated.Tables Model.Devs Model.DevsSpec Proofs.DevsProofs.
 Import ListNotations. Open Scope Z_scope.
 
-Definition survives (x : event) (l : list logitem) : Prop :=
-  ~ In (e_tag x) (cancels l) /\ ~ In (e_holder x) (drops l).
-Definition watch (x : event) (st : state) : Prop :=
-  In x (s_events st) /\ e_cancelled x = false /\ e_step x = false /\ memz (e_holder x) (s_dead st) = false.
 
 (* ---------- logs ---------- *)
 Lemma cancels_app : forall a b, cancels (a ++ b) = cancels a ++ cancels b.
